@@ -22,7 +22,7 @@ RULE = ("generated project trees of 2-8 files in nested directories; import / in
 FAULT_KINDS = ["missing", "dir", "nonutf8", "syntax"]
 TIERS = {
     "quick": {"runs": 1600, "wall_cap": 210},
-    "thorough": {"runs": 14000, "wall_cap": 3300, "reexecute": 100},
+    "thorough": {"runs": 30000, "wall_cap": 3300, "reexecute": 100},
 }
 
 # ---- site templates -------------------------------------------------------------------
